@@ -8,6 +8,18 @@ TB = "Trusted: Go 1.23.5 stdlib, circl v1.3.7, go-hpke, x/crypto, rapid v1.3.0, 
 
 # id -> (technique, level text, design_ref, extra note)
 CLAIMS = {
+ "C06": ("rapid PBT of mutated (request, blind, client key) triples against an independent authenticity predicate and a recording cache",
+         "Honest triples from real clients are mutated field by field (bit flips, spliced signatures, (r,N-s), extreme r/s, wrong/re-encoded/empty blind, other/negated/malformed client key, malformed request key); VerifyRequest==nil must imply crypto/ecdsa.Verify over the exact contents AND request key == the harness's own hash-to-field blinding of the client key on crypto/elliptic; rejected or unauthentic calls must cause no Put and leave every stored state unchanged; honest triples must be accepted.",
+         "DESIGN.md section 4 C06", "Requests carry a 96-byte signature (what the decoder produces); shorter in-memory signatures are outside the domain."),
+ "C07": ("rapid PBT of transformed honest requests plus requests crafted with go-hpke and crypto/ecdsa directly; exhaustive single-bit sweep per sampled request",
+         "Honest encoded requests (1..3 registered origins, with/without the empty name) are bit-flipped per field, stripped of the signature, extended, truncated, re-targeted to another issuer's name key, sent for unregistered look-alike origins; crafted requests (attacker's own signing key, harness-side HPKE seal) reach states the honest client cannot: AAD bound to another request key, signature by a key other than request_key, signature over other bytes, unregistered origin inside, undecodable request key, truncated inner request. All must give an error and no output; honest and validly crafted requests must be served.",
+         "DESIGN.md section 4 C07", "Not asserted: a wire issuer_encap_key_id different from the issuer's own with the real one in the AAD (served by pat-go; the property does not list it); trailing bytes inside the decrypted inner request."),
+ "C08": ("rapid PBT of complete multi-request runs against an HKDF/hash-to-field reference written in the harness",
+         "For two clients and origins with distinct, shared and issuer-generated index keys, sequences of 2..4 full runs (CreateTokenRequest, VerifyRequest, issuer Evaluate, FinalizeIndex) with independent blinds, nonces and challenges must all return HKDF-SHA-384(salt=client key, ikm=client key blinded by the index key, info=IssuerOriginAlias) as computed by the harness over crypto/hmac and crypto/elliptic; IDs must be distinct across clients and distinct index keys, equal for a shared index key.",
+         "DESIGN.md section 4 C08", ""),
+ "C09": ("stateful model-based testing (rapid state machine) + bounded-exhaustive enumeration of all short histories",
+         "Histories over verify/finalize actions on 3 clients (one never verified), 4 origins (two sharing an index key) and 3 anonymous origin IDs are run against a fresh attester and a two-map model; every decision and returned ID must match the model, accepted pairs must stay accepted and a second ID for a bound index must stay refused after the history. All histories of length <=3 (quick) / <=4 (thorough) over a 10-letter alphabet are enumerated.",
+         "DESIGN.md section 4 C09", ""),
  "C02": ("rapid PBT of attacker transformations of honest responses with a MUST-REJECT / SUCCESS-IMPLIES-VALID oracle; exhaustive single-bit sweep per sampled run",
          "Each case draws two outstanding requests under one key plus a response under a foreign key (type 3: a second issuer with the same name key and another token key), then hands the client bit-flipped, cross-wired, foreign-key, dropped/duplicated/swapped (type 5), truncated, extended, zeroed, random and re-framed responses. Success is only allowed outside the MUST-REJECT classes and only with tokens that verify independently under the pinned key and carry the request's nonce, digest and key id. Every bit position of a response is swept per type.",
          "DESIGN.md section 4 C02", "Concrete attacker moves listed in the property, not all adversaries; unforgeability of circl/stdlib primitives is assumed."),
